@@ -29,6 +29,8 @@ pub struct Trace {
     pub horizon_units: u64,
     pub clients_started: u32,
     pub clients_done: u32,
+    /// per tag: the kinds of callback entries in order (fault positions)
+    pub cb_kinds: std::collections::BTreeMap<u32, Vec<&'static str>>,
 }
 
 impl Trace {
@@ -158,6 +160,8 @@ pub fn run_l1(prog: &Program, cfg: RunCfg) -> Trace {
     let cleanup_outcome = exec.run(now.max(horizon) + 64 * UNIT, cfg.max_steps, || false);
     log::log(K::Phase("end"));
     let census = exec.census();
+    let cb_kinds: std::collections::BTreeMap<u32, Vec<&'static str>> =
+        prog.actors.iter().chain(prog.defaults.iter()).map(|d| (d.tag, actors::cb_kinds(d.tag))).collect();
     let (steps, decisions, multi_choice) = (exec.steps, exec.decisions, exec.multi_choice);
     let clients_started = env.clients_started.load(Ordering::SeqCst);
     let clients_done = env.clients_done.load(Ordering::SeqCst);
@@ -178,5 +182,6 @@ pub fn run_l1(prog: &Program, cfg: RunCfg) -> Trace {
         horizon_units,
         clients_started,
         clients_done,
+        cb_kinds,
     }
 }
